@@ -155,6 +155,11 @@ def lattice_rules(model, R):
         if neg and name_is(tt, key):
             top_ok = chain(ret) == ['self', 'supremum']
     R.check(int_ok, 'MAPPING', f, f.node, 'lattice[i]: the i-th member of the iteration order', 'if isinstance(key, (int, slice)): return self._concepts[key]')
+    int_line = [s.lineno for s in branches if isinstance(s.test, ast.Call) and name_is(s.test.func, 'isinstance')]
+    top_line = [s.lineno for s in branches if strip_not(s.test)[1] and name_is(strip_not(s.test)[0], key)]
+    if int_line and top_line:
+        R.check(int_line[0] < top_line[0], 'MAPPING', f, f.node, 'integer keys are dispatched before the falsy-key test (0 is falsy)',
+                'isinstance(key, (int, slice)) branch first', 'the "not key" branch comes first: lattice[0] returns the top concept')
     R.check(top_ok, 'MAPPING', f, f.node, 'lattice[()]: the top concept', 'if not key: return self.supremum')
     last = f.body[-1]
     env = Env(f)
@@ -185,4 +190,7 @@ def run(model, R):
     R.floor('MAPPING', 8)
     R.guard('LOOKUP', None, 'Context.__getitem__', getitem_rules, model, R)
     R.guard('MAPPING', None, 'Lattice lookups', lattice_rules, model, R)
+    # the pair is only the closure pair if doubleprime is wired to this context's own table (shared with C01)
+    from . import c01
+    R.guard('WIRING', None, 'Relation.__new__', c01.relation_new, model, R)
     return __doc__.strip()
